@@ -4,7 +4,7 @@
    record PopEDNS0 finds (0 when there is none); every response the router builds carries its own 11-octet OPT or
    none, so the side condition [opt_len m + 12 <= eff_size size] always holds there. *)
 From Mos Require Import Base.Prelude Codec.Name Codec.Msg Codec.Spec Codec.NameProofs Codec.SafetyProofs
-  Codec.WfProofs Codec.RoundtripProofs Codec.TruncProofs.
+  Codec.WfProofs Codec.RoundtripProofs Codec.TruncProofs Router.Rules Router.Edns Router.Router Router.RouterProofs.
 
 (* Packing a well-formed message (hence: any decoded message, C01_decode_wf) into a buffer of Msg.Len octets never
    fails — with or without compression, with or without a size limit. *)
@@ -73,6 +73,23 @@ Theorem C09_oracle_plain : forall (size : nat) (m : msg), wf_msg m -> 0 < size -
   spec_packsize false size m (plain_bytes (trunc size m)) = true.
 Proof. exact spec_packsize_plain. Qed.
 Print Assumptions C09_oracle_plain.
+
+(* The listeners' limits: a UDP response never exceeds max(512, the size the client advertised in its (last) OPT
+   record) — 512 when the query has no OPT —, a DoH body never exceeds 65535 octets, and a TCP/DoT/DoQ frame is one
+   2-octet prefix equal to the body length followed by a body of at most 65535 octets.  (r is any well-formed response
+   whose OPT record, if any, is small: the router's own OPT is 11 octets.) *)
+Theorem C09_listener_limits : forall (l : listener) (q r : msg), wf_msg r -> opt_len r + 12 <= 512 ->
+  (512 <= client_udp_size q)%N /\ (has_opt q = false -> client_udp_size q = 512%N) /\
+  exists b, respond l q r = [b] /\
+            match l with
+            | LUdp => length b <= N.to_nat (client_udp_size q)
+            | LHttp => length b <= max_size
+            | LTcp => exists body, b = be16n (length body) ++ body /\ length body <= max_size
+            end.
+Proof.
+  intros l q r Hw Ho. split; [apply client_udp_size_ge|]. split; [apply client_udp_size_no_opt|now apply respond_size].
+Qed.
+Print Assumptions C09_listener_limits.
 
 (* C09_compressed_wellformed_partial: with compression ON the size bound (C09_size), "nothing omitted when it fits"
    (C09_fits_untouched) and totality (C09_pack_total) are proved above; that the compressed truncated output decodes
